@@ -519,7 +519,8 @@ def _is_infix(ast):
     return ast[0] in ('and', 'or', 'seq')
 
 
-def _has_infix_at_depth0(toks):
+def has_infix_at_depth0(toks):
+    """True if the token list has an infix operator (&&, ||, |) outside every pair of parentheses."""
     d = 0
     for t in toks:
         if t == '(':
@@ -536,10 +537,20 @@ def _simple(ast, kind, env, style):
     contain infix operators (unless inside parentheses)") - this includes infix operators of an argument that
     extends to the end of the expression, as the LINE-MATCHER of `filter`."""
     toks = _tokens(ast, kind, env, style)
-    if _has_infix_at_depth0(toks) or (style == 'full' and ast[0] == 'not'):
+    if has_infix_at_depth0(toks) or (style == 'full' and ast[0] == 'not'):
         return ['('] + toks + [')']
-    if ast[0] == 'filter-nums':
-        # LINE-NUMBER-RANGE... runs to the end of the line: shield what follows
+    if toks and toks[-1] == NL:
+        # a here-document, `:> ...` or `-line-nums RANGE...` ends the line: shield what follows, so that the next
+        # line starts with ")" (the only continuation after such a line break that is used here, see _operand)
+        return ['('] + toks + [')']
+    return toks
+
+
+def _operand(toks, need_parens, is_last):
+    """An operand of an infix operator.  An operand that ends its line (here-document etc.) and is followed by an
+    operator is parenthesised: the manual is silent on line breaks, and the program does not accept an operator
+    at the start of a line in every context."""
+    if need_parens or (not is_last and toks and toks[-1] == NL):
         return ['('] + toks + [')']
     return toks
 
@@ -552,7 +563,7 @@ def _tokens(ast, kind, env, style):
     if h == 'not':
         x = ast[1]
         inner = _tokens(x, kind, env, style)
-        if _is_infix(x) or style == 'full' or x[0] == 'filter-nums':
+        if _is_infix(x) or style == 'full':
             return ['!', '('] + inner + [')']
         return ['!'] + inner
     if h in ('and', 'or'):
@@ -564,7 +575,7 @@ def _tokens(ast, kind, env, style):
             xt = _tokens(x, kind, env, style)
             need = (style == 'full' and x[0] in ('and', 'or', 'not')) or \
                    (h == 'and' and x[0] == 'or') or (x[0] == h)
-            toks += (['('] + xt + [')']) if need else xt
+            toks += _operand(xt, need, i == len(ast) - 2)
         return toks
     # ---- integer matcher ---------------------------------------------------------------------
     if h == 'cmp':
@@ -623,8 +634,8 @@ def _tokens(ast, kind, env, style):
                 toks.append('|')
             tt = _tokens(t, TEXT_TRANSFORMER, env, style)
             # `filter LINE-MATCHER` inside a sequence: infix operators of the line matcher (&&, ||) are shielded
-            need = t[0] == 'seq' or _has_infix_at_depth0(tt)
-            toks += (['('] + tt + [')']) if need else tt
+            need = t[0] == 'seq' or has_infix_at_depth0(tt)
+            toks += _operand(tt, need, i == len(ast) - 2)
         return toks
     raise ModelError('cannot render %r' % (ast,))
 
@@ -692,16 +703,41 @@ def kind_of(ast, default=TEXT_MATCHER):
     return default
 
 
+def _line_break_before_infix_at_depth0(toks):
+    d = 0
+    after_nl = False
+    for t in toks:
+        if t == NL:
+            after_nl = True
+            continue
+        if isinstance(t, tuple):
+            continue  # here-document line / rest-of-line string
+        if t == '(':
+            d += 1
+        elif t == ')':
+            d -= 1
+        elif d == 0 and after_nl and t in ('&&', '||', '|'):
+            return True
+        after_nl = False
+    return False
+
+
 def render_tokens(ast, kind=None, env=None, style='full', simple=False):
     """style 'full': every composite operand is parenthesised; 'min': parentheses only where the documented
     precedence (! > && > ||; arguments of every/any line, num-lines, line-num, -transformed-by, -at are simple
     expressions) needs them.  simple=True: render for a position that takes an expression without infix
-    operators."""
+    operators.
+    Layout: a here-document, `:> ...` and `-line-nums ...` end their line, so an infix operator that follows
+    starts a line.  The program accepts that inside parentheses only (outside, the instruction ends with the
+    line) - the manual is silent on line breaks - so such an expression is parenthesised as a whole."""
     if env is None:
         env = RenderEnv()
     if kind is None:
         kind = kind_of(ast)
-    return _simple(ast, kind, env, style) if simple else _tokens(ast, kind, env, style)
+    toks = _simple(ast, kind, env, style) if simple else _tokens(ast, kind, env, style)
+    if _line_break_before_infix_at_depth0(toks):
+        toks = ['('] + toks + [')']
+    return toks
 
 
 def render(ast, kind=None, env=None, style='full', simple=False):
